@@ -41,6 +41,7 @@ def main():
             extra_cov=meta.get("extra_cov"),
             exhaustive=meta.get("exhaustive", False),
             trusted_base=meta.get("trusted_base", ()),
+            checks=getattr(mod, "CHECKS", None),
         )
     except engine.HarnessError as exc:
         print(f"HARNESS-ERROR property={prop}: {exc}", file=sys.stderr)
